@@ -5,6 +5,8 @@ statistics of `n` independent uniforms,
 (G. P. Steck, *Rectangle probabilities for uniform order statistics and the probability that the empirical
 distribution function lies between two distribution functions*, Ann. Math. Statist. 42 (1971)).
 This file is the exact-rational *evaluation* of the right-hand side; the identity itself is cited, not proved.
+Since `OpdaModel/RectProb.lean` (whose evaluator is *proved* to be this probability, `Opda.Props.C01.rect_coverage_is_volume`)
+the determinant is only a second, independent evaluator: the C01 harness requires both to return the same rational.
 -/
 namespace Opda.Steck
 
